@@ -22,7 +22,7 @@ from ..dtab import Unsupported, _cmp
 from ..linform import linform
 from ..pm import dotted, unparse, walk_no_nested
 from ..report import Ctx
-from .c05 import (LDT, BoolSym, CallSym, Carried, CmpSym, ElemSym, Init, RangeSym, SliceSym, SubSym, Sym, called, lin_of, lin_sub, parts, path_of,
+from .c05 import (LDT, BoolSym, CallSym, GenList, Carried, CmpSym, ElemSym, Init, RangeSym, SliceSym, SubSym, Sym, called, lin_of, lin_sub, parts, path_of,
                   cover, declare, run_block, sym_env)
 
 NULL_AWARE = {"ne_missing", "eq_missing"}
@@ -272,7 +272,12 @@ def r13_4(ctx: Ctx) -> None:
                               f"restore_page_context reads the original values from `{path_of(orig)[:50]}`, not from the frame that was suppressed (`{path_of(enh[0].args[0])[:50]}`)")
             elif not enh:
                 ctx.gap("R13.4", f"_apply_data_post_processing: first argument `{path_of(sup)[:50]}` of restore_page_context is not recognisably the suppressed frame")
-            if not isinstance(idx, list):
+            ps_form = _prefix_sum_form(idx)
+            if ps_form is not None:
+                n_app += 1
+                _judge_prefix_sums(ctx, fi, e[5], idx, ps_form, pages_param=[a.arg for a in fi.node.args.args][1] if len(fi.node.args.args) > 1 else "pages")
+                continue
+            if not isinstance(idx, list) or isinstance(idx, GenList):
                 ctx.gap("R13.4", f"_apply_data_post_processing: page start indices `{path_of(idx)[:50]}` are not a list built in the function")
                 continue
             apps = [x for x in eff if x[0] == "call" and x[1] == "append" and x[2] is idx]
@@ -366,6 +371,63 @@ def r13_4(ctx: Ctx) -> None:
     if lv and not seen:
         ctx.gap("R13.4", "restore_page_context: no rewritten column (when/then/otherwise/alias) was re-identified")
     ctx.floor("R13.4", 3)
+
+
+def _neg_int(x):
+    return isinstance(x, int) and not isinstance(x, bool) and x < 0
+
+
+def _prefix_sum_form(v):
+    """itertools.accumulate over the page heights as a term: (summands, initial given?, initial value, dropped in front, dropped at the end of the summands,
+    dropped at the end of the result) or None.  accumulate(h) is the sequence of prefix sums h0, h0+h1, ...; with initial=c it starts with c."""
+    front = back = 0
+    while True:
+        if isinstance(v, CallSym) and v.recv is None and v.meth in ("list", "tuple") and len(v.args) == 1:
+            v = v.args[0]
+        elif isinstance(v, SliceSym) and (v.lo is None or (isinstance(v.lo, int) and not isinstance(v.lo, bool) and v.lo >= 0)) and (v.hi is None or _neg_int(v.hi)):
+            if back and v.lo:
+                return None
+            front += v.lo or 0
+            back += -(v.hi or 0)
+            v = v.base
+        else:
+            break
+    if not (isinstance(v, CallSym) and v.recv is None and v.meth == "accumulate" and len(v.args) == 1):
+        return None
+    kw = dict(v.kw)
+    if set(kw) - {"initial"}:
+        return None                                    # func= ...: not a sum
+    seq, d_in = v.args[0], 0
+    if isinstance(seq, SliceSym) and seq.lo in (None, 0) and _neg_int(seq.hi):
+        seq, d_in = seq.base, -seq.hi
+    elif isinstance(seq, SliceSym):
+        return None
+    return seq, "initial" in kw and kw["initial"] is not None, kw.get("initial"), front, d_in, back
+
+
+def _judge_prefix_sums(ctx: Ctx, fi, node, idx, form, pages_param: str) -> None:
+    seq, has_init, init, front, d_in, back = form
+    ctx.instance("R13.4", fi.where(node), f"page start indices = prefix sums `{path_of(idx)[:90]}`")
+    ok_seq = isinstance(seq, GenList) and len(seq) == 1 and not seq.filtered and len(seq.sources) == 1 and isinstance(seq.sources[0], Init) \
+        and seq.sources[0].path == pages_param and isinstance(seq[0], Sym) and seq[0].path.startswith("∀") and seq[0].path.endswith(".data.height") \
+        and seq[0].path.split("∈", 1)[1] == pages_param + ".data.height"
+    if not ok_seq:
+        ctx.gap("R13.4", f"_apply_data_post_processing: summands `{path_of(seq)[:60]}` of the prefix sums are not recognisably the heights p.data.height of all pages in order")
+        return
+    if has_init and init != 0:
+        ctx.violation("R13.4", fi.short, f"page_start_indices accumulate initial={path_of(init)[:30]}", fi.where(node),
+                      f"the running total of the page heights starts at `{path_of(init)[:40]}`, not at 0")
+        return
+    # with n pages of heights h0..h(n-1) and P_k = h0+...+hk the result must be P_0 .. P_(n-2): the first rows of pages 2..n
+    first_is_page1 = has_init and front == 0           # 0 = first row of page 1 is included
+    skipped = front - (1 if has_init else 0)           # prefix sums P_0.. missing in front
+    last = d_in + back                                 # must be 1: P_(n-1) = number of all rows is dropped, P_(n-2) is kept
+    if first_is_page1 or skipped > 0 or last != 1:
+        what = "includes the first page (index 0)" if first_is_page1 else (f"misses the first {skipped} page start(s) after page 1" if skipped > 0 else
+               ("includes the total number of rows (one past the last page)" if last == 0 else f"misses the start of the last {last - 1} page(s)"))
+        ctx.violation("R13.4", fi.short, f"page_start_indices prefix sums front={front} initial={has_init} back={d_in}+{back}", fi.where(node),
+                      f"the page start indices `{path_of(idx)[:80]}` are the prefix sums of the page heights but the selection {what}; exactly the first rows of "
+                      "pages 2..n (sum of the heights of all preceding pages) start with restored context")
 
 
 def _fmt(v: dict) -> str:
@@ -505,6 +567,9 @@ def check(ctx: Ctx) -> None:
     ctx.assume("R13.4 guard on the page index: only a single comparison `index OP integer constant` is accepted (anything else: gap / violation 'guard missing'); such a "
                "predicate over the naturals is monotone or a point predicate, so its values at 0, 1 and 2 determine it everywhere: False at 0 and True at 1 and 2 force "
                "it to be equivalent to index >= 1 (7 is a redundant extra point); this is an exact decision, not a sample")
+    ctx.assume("R13.4: itertools.accumulate(h) without func= is modelled as the term 'prefix sums of h' (h0, h0+h1, ...; with initial=c preceded by c); slices with literal "
+               "bounds ([:-1], [1:-1]) of the summands / of the result are read as dropping that many leading / trailing prefix sums; the verdict is an identity between "
+               "index sets for a symbolic number n of pages (result must be P_0..P_(n-2)), nothing is evaluated for a chosen n")
     ctx.assume("R13.4 page start indices: the accumulator is judged on one generic iteration (entry value of the accumulator symbolic, its initial value before the loop "
                "read separately): appended value = accumulator before this page, accumulator' = accumulator + p.data.height; with initial value 0 this is the inductive "
                "definition of the cumulative heights")
